@@ -85,23 +85,26 @@ def addBlock (s : TdfSt) (b : BlkArg) (comment : Str) (now : Int) : TdfSt × Out
       let v3 := writeAt v2 off.toNat pl
       ({ s with view := v3, disk := v3, entries := s.entries.take pos ++ e :: later }, .ok)
 
-/-- `entries[-1].offset + entries[-1].size if entries else 64 + 288 * nEntries` -/
-def lastEnd (kept : List Entry) (n : Nat) : Int :=
-  match kept.getLast? with
-  | some l => l.off + l.size
-  | none => 64 + 288 * n
+def liveOf (es : List Entry) : List Entry := es.filter (fun e => e.typ != 0)
+
+/-- `max([64 + 288 * nEntries] + [e.offset + e.size for e in entries if e.type != unusedSlot])`: the end of the data -/
+def dataEnd (kept : List Entry) (n : Nat) : Int :=
+  (liveOf kept).foldl (fun m e => max m (e.off + e.size)) (64 + 288 * n)
+
+/-- `if entry.offset > oldEntry.offset: entry.offset -= oldEntry.size`: an entry whose data lie after the removed block
+    moves up by its size, wherever the entry is in the table -/
+def shiftAfter (old x : Entry) : Entry := if x.off > old.off then { x with off := x.off - old.size } else x
 
 def removeBlock (s : TdfSt) (t : Nat) (now : Int) : TdfSt × Outcome :=
   match findType t s.entries with
   | none => (s, .err .absent)
   | some pos =>
     let old := s.entries.getD pos unusedEntry
-    let shifted := (s.entries.drop (pos + 1)).map (fun x => { x with off := x.off - old.size })
-    let kept := s.entries.take pos ++ shifted
-    let newOff : Int := lastEnd kept s.nEntries
+    let kept := (s.entries.take pos ++ s.entries.drop (pos + 1)).map (shiftAfter old)
+    let newOff : Int := dataEnd kept s.nEntries
     let fresh : Entry := ⟨0, 0, newOff, 0, now, now, now, defaultComment⟩
-    -- consecutive `_write` calls after one seek: one contiguous write
-    let v1 := writeAt s.view (slotPos pos) ((shifted ++ [fresh]).flatMap Entry.enc)
+    -- `seek(64)`, then consecutive `_write` calls of the whole table: one contiguous write
+    let v1 := writeAt s.view (slotPos 0) ((kept ++ [fresh]).flatMap Entry.enc)
     let tail := v1.drop (old.off + old.size).toNat
     let v2 := writeAt v1 old.off.toNat tail
     let v3 := truncateAt v2 (old.off.toNat + tail.length)
@@ -159,7 +162,6 @@ def runOps (s : TdfSt) : List Op → TdfSt
   | op :: ops => runOps (step s op).1 ops
 
 /-! independent reader: executable well-formedness / compactness predicates on raw bytes -/
-def liveOf (es : List Entry) : List Entry := es.filter (fun e => e.typ != 0)
 
 /-- two byte ranges do not overlap -/
 def Disjoint2 (a b : Entry) : Prop := a.off + a.size ≤ b.off ∨ b.off + b.size ≤ a.off
